@@ -465,3 +465,124 @@ pub fn e2e_strategy() -> impl proptest::strategy::Strategy<Value = E2eCase> {
     )
         .prop_map(|(addrs, live, bound, wildcard, no_connect_timeout, hang)| E2eCase { addrs, live, bound, wildcard, no_connect_timeout, hang })
 }
+
+// ------------------------------------------------------------------------------------------------
+// URI port leg: the port the socket is opened to is the port of the request URI - explicit, or the
+// scheme's default (80 / 443) - whatever port the resolver's answer carries; through `TcpTransport`
+// (happy eyeballs) and `SimpleTcpTransport` (first address). Every case uses a loopback address of
+// its own (127.77.x.y), so that listeners on the fixed ports 80 and 443 never collide.
+
+#[derive(Clone, Debug, Serialize, Deserialize, PartialEq)]
+pub struct PortCase {
+    /// 0 http, 1 https
+    pub scheme: u8,
+    /// explicit port in the URI (an ephemeral listener port is substituted) or the scheme's default
+    pub explicit: bool,
+    /// port carried by the resolver's answer (must be ignored)
+    pub answer_port: u16,
+    /// SimpleTcpTransport (first address of the answer) instead of TcpTransport
+    pub simple: bool,
+    /// decoy addresses (nobody listens) after the first one in the resolver's answer
+    pub extra: u8,
+}
+
+pub struct PortEngine;
+
+static PORT_CASE_SEQ: std::sync::atomic::AtomicU32 = std::sync::atomic::AtomicU32::new(0);
+
+impl Engine for PortEngine {
+    type Case = PortCase;
+    fn name(&self) -> &'static str {
+        "addrsort-port"
+    }
+    fn real_time(&self) -> bool {
+        true
+    }
+    fn run_case(&self, c: &PortCase) -> CaseReport {
+        use hyperdriver::client::conn::dns::FirstAddrExt;
+        use hyperdriver::stream::tcp::TcpStream;
+        use hyperdriver::client::conn::transport::tcp::{SimpleTcpTransport, TcpTransport, TcpTransportConfig};
+        use tower::ServiceExt;
+        let mut rep = CaseReport::default();
+        let rt = tokio::runtime::Builder::new_current_thread().enable_all().build().unwrap();
+        let res: Result<(), String> = rt.block_on(async {
+            let default_port = if c.scheme % 2 == 0 { 80u16 } else { 443 };
+            // an address of this case's own
+            let mut listener = None;
+            let mut ip = Ipv4Addr::LOCALHOST;
+            for _ in 0..40 {
+                let n = PORT_CASE_SEQ.fetch_add(1, std::sync::atomic::Ordering::Relaxed);
+                let pid = std::process::id();
+                ip = Ipv4Addr::new(127, 77, ((n / 250 + pid) % 250) as u8 + 1, (n % 250) as u8 + 1);
+                match tokio::net::TcpListener::bind(SocketAddr::new(IpAddr::V4(ip), if c.explicit { 0 } else { default_port })).await {
+                    Ok(l) => {
+                        listener = Some(l);
+                        break;
+                    }
+                    Err(e) if e.kind() == std::io::ErrorKind::PermissionDenied => {
+                        rep.class("privileged-port-unavailable-inconclusive");
+                        return Ok(());
+                    }
+                    Err(_) => continue,
+                }
+            }
+            let Some(listener) = listener else {
+                rep.class("port-reservation-failed-inconclusive");
+                return Ok(());
+            };
+            let port = listener.local_addr().map_err(|e| e.to_string())?.port();
+            let mut answer = vec![SocketAddr::new(IpAddr::V4(ip), c.answer_port)];
+            let mut holders = vec![];
+            for k in 0..(c.extra % 3) {
+                // decoys: other addresses of the case's own /24 where the port is held closed
+                let d = Ipv4Addr::new(ip.octets()[0], ip.octets()[1], ip.octets()[2], ip.octets()[3].wrapping_add(100 + k).max(1));
+                if let Ok(h) = bound_unlistened(SocketAddr::new(IpAddr::V4(d), port)) {
+                    holders.push(h);
+                    answer.push(SocketAddr::new(IpAddr::V4(d), c.answer_port.wrapping_add(1)));
+                }
+            }
+            let scheme = if c.scheme % 2 == 0 { "http" } else { "https" };
+            let uri: http::Uri = if c.explicit { format!("{scheme}://port.test:{port}/") } else { format!("{scheme}://port.test/") }.parse().unwrap();
+            let parts = http::Request::get(uri.clone()).body(()).unwrap().into_parts().0;
+            let mut cfg = TcpTransportConfig::default();
+            cfg.connect_timeout = Some(std::time::Duration::from_secs(2));
+            let result: Result<SocketAddr, String> = if c.simple {
+                let t: SimpleTcpTransport<_, TcpStream> = SimpleTcpTransport::new(cfg, ListResolver(answer.clone()).first_addr());
+                match t.oneshot(parts).await {
+                    Ok(s) => s.peer_addr().map_err(|e| e.to_string()),
+                    Err(e) => Err(e.to_string()),
+                }
+            } else {
+                let t: TcpTransport<ListResolver, TcpStream> = TcpTransport::builder().with_config(cfg).with_resolver(ListResolver(answer.clone())).build();
+                match t.oneshot(parts).await {
+                    Ok(s) => s.peer_addr().map_err(|e| e.to_string()),
+                    Err(e) => Err(e.to_string()),
+                }
+            };
+            let desc = format!("{uri} through {} with the resolver answering {answer:?}; a listener waits on {ip}:{port}", if c.simple { "SimpleTcpTransport" } else { "TcpTransport" });
+            match result {
+                Ok(peer) if peer == SocketAddr::new(IpAddr::V4(ip), port) => {}
+                Ok(peer) => rep.violate("C16/uri-port-not-applied", format!("{desc}: connected to {peer}")),
+                Err(e) => rep.violate("C16/uri-port-not-applied", format!("{desc}: connect failed: {e}")),
+            }
+            drop(listener);
+            drop(holders);
+            Ok(())
+        });
+        if let Err(e) = res {
+            rep.internal_error = Some(e);
+        }
+        rep.class(if c.explicit { "uri-port-explicit" } else { "uri-port-default" });
+        if c.simple {
+            rep.class("simple-tcp-transport");
+        }
+        rep.nontrivial = !c.explicit || c.extra % 3 > 0;
+        rep.total_ops = 1;
+        rep
+    }
+}
+
+pub fn port_strategy() -> impl proptest::strategy::Strategy<Value = PortCase> {
+    use proptest::prelude::*;
+    (0u8..2, any::<bool>(), prop_oneof![Just(0u16), Just(1u16), Just(80u16), Just(443u16), any::<u16>()], any::<bool>(), 0u8..3).prop_map(|(scheme, explicit, answer_port, simple, extra)| PortCase { scheme, explicit, answer_port, simple, extra })
+}
